@@ -321,7 +321,7 @@ macro_rules! iter_clone {
     };
 }
 
-// @gen macro=iter_debug name=c06_debug props=C06 thorough=U2,2,0,2;U2,2,1,2;U2,2,1,1;U3,3,1,2
+// @gen macro=iter_debug name=c06_debug props=C06 quick=U3,3,1,2 thorough=U2,2,0,2;U2,2,1,2;U2,2,1,1;U3,3,0,2
 macro_rules! iter_debug {
     ($name:ident, $N:ty, $n:expr, $i:expr, $b:expr) => {
         #[kani::proof]
